@@ -180,3 +180,42 @@ class SPred:
 
     def __sym_contains__(self, I, x, node):
         return self.member(x)
+
+
+class SMap:
+    """Mutable map from ints to values with symbolic keys: (domain, values) arrays."""
+
+    def __init__(self, dom, val):
+        self.dom = dom
+        self.val = val
+
+    def has(self, k):
+        return z3.Select(self.dom, L.to_z3(k))
+
+    def get(self, k):
+        return z3.Select(self.val, L.to_z3(k))
+
+    def snapshot(self):
+        return SMap(self.dom, self.val)
+
+    def __sym_truth__(self):
+        raise SymError("truthiness of a symbolic map")
+
+    def __sym_contains__(self, I, x, node):
+        return self.has(I.numeric(x))
+
+    def __sym_getitem__(self, I, idx, node):
+        from .symexec import SymRaise, _txt
+        k = I.numeric(idx)
+        if not I.ctx.branch(self.has(k)):
+            raise SymRaise(KeyError, _txt(node))
+        return self.get(k)
+
+    def __sym_setitem__(self, I, idx, v, node):
+        k = L.to_z3(I.numeric(idx))
+        I.note_write(self)
+        vv = L.to_z3(L.num(I.numeric(v)))
+        if self.val.sort().range() == z3.RealSort() and z3.is_int(vv):
+            vv = z3.ToReal(vv)
+        self.val = z3.Store(self.val, k, vv)
+        self.dom = z3.Store(self.dom, k, z3.BoolVal(True))
